@@ -25,6 +25,19 @@ FusionPeptides(d, a) ==
       starts == IF C.dinfo[d].coding THEN {C.dinfo[d].orfStart} ELSE AtgStarts(s)   \* any start of the fused sequence (the property only asks for a digestion product of it)
   IN UNION {LET o == OrfOf(s, x, {}) IN OrfPeptides(o.pep, C.cfg, TRUE, o.open, FALSE) : x \in starts}
 
+(* completeness (C01 on fusion backbones, coding donors whose breakpoint lies after the start     *)
+(* codon): every peptide of the fused sequence read from the donor's annotated start, except      *)
+(* open-ended tails, digestion products of the unmodified donor transcript and canonical          *)
+(* peptides, is in the FASTA                                                                      *)
+Canonical == CanonicalPool(C.proteome, C.cfg)
+DonorRef(d) == LET o == OrfOf(TxSeq(C.chrom, C.dtx[d]), C.dinfo[d].orfStart, {}) IN OrfPeptides(o.pep, C.cfg, TRUE, o.open, FALSE)
+FusionRequired(d, a) ==
+  IF ~C.dinfo[d].coding \/ Len(DonorSeq(C.chrom, C.dtx[d], C.lb)) < C.dinfo[d].orfStart + 3 THEN {}
+  ELSE LET s == DonorSeq(C.chrom, C.dtx[d], C.lb) \o AcceptorSeq(C.chrom, C.atx[a], C.rb)
+           o == OrfOf(s, C.dinfo[d].orfStart, {})
+       IN OrfPeptides(o.pep, C.cfg, TRUE, o.open, TRUE) \ (DonorRef(d) \cup Canonical)
+AllObs == {C.allobs[k] : k \in 1..Len(C.allobs)}
+
 Verdict ==
   /\ Clause("skipped_when_insufficient_or_unknown", (~C.enough \/ ~C.known) => Len(C.records) = 0)
   /\ Clause("one_record_per_eligible_pair",
@@ -33,5 +46,7 @@ Verdict ==
        \A k \in 1..Len(C.records) : C.records[k].pos = DonorPos(C.gd, C.lb) /\ C.records[k].accpos = AcceptorPos(C.ga, C.rb))
   /\ Clause("peptides_from_fused_sequence",
        \A k \in 1..Len(C.peps) : C.peps[k].seq \in FusionPeptides(C.peps[k].d, C.peps[k].a))
+  /\ Clause("fusion_peptides_complete",
+       C.cvran => \A k \in 1..Len(C.records) : FusionRequired(C.records[k].d, C.records[k].a) \subseteq AllObs)
   /\ PrintT(<<"V", i, "done">>)
 =============================================================================
